@@ -180,6 +180,25 @@ class RuleTable:
             if a is None or b is None:
                 return None
             return a + b
+        if isinstance(it, ast.Call) and not it.keywords and it.args:
+            fr = self.repo.resolve_expr(m, it.func) if isinstance(it.func, (ast.Name, ast.Attribute)) else None
+            if fr is not None and fr.qual == "itertools.chain" and not any(isinstance(a, ast.Starred) for a in it.args):
+                out = []
+                for a in it.args:
+                    sub_ = self._literal_elts(m, a, env)
+                    if sub_ is None:
+                        return None
+                    out.extend(sub_)
+                return out
+            if fr is not None and fr.qual in ("builtins.list", "builtins.tuple", "builtins.sorted", "builtins.reversed") and len(it.args) == 1:
+                sub_ = self._literal_elts(m, it.args[0], env)
+                if sub_ is None:
+                    return None
+                if fr.qual == "builtins.reversed":
+                    return list(reversed(sub_))
+                if fr.qual == "builtins.sorted":
+                    return None
+                return sub_
         if isinstance(it, ast.Call) and isinstance(it.func, ast.Attribute) and it.func.attr in ("items", "keys", "values") and not it.args and not it.keywords:
             d = it.func.value
             dm = m
@@ -320,8 +339,15 @@ class RuleTable:
         argnums = None
         for kw in c.keywords:
             if kw.arg == "argnums":
+                kv = subst(kw.value, env)
+                if isinstance(kv, _Foreign):
+                    kv = kv.expr
+                if isinstance(kv, (ast.Name, ast.Attribute)):
+                    rr = self.repo.resolve_expr(m, kv)
+                    if rr is not None and rr.kind == "repo" and rr.okind == "assign" and isinstance(rr.node, (ast.Tuple, ast.List)) and len(rr.mod.top.get(rr.name, [])) == 1:
+                        kv = rr.node  # argnums=_SOME_MODULE_CONSTANT
                 try:
-                    argnums = list(ast.literal_eval(kw.value))
+                    argnums = list(ast.literal_eval(kv))
                 except Exception:
                     self.undecided.append((m, c, "non-literal argnums="))
                     return
